@@ -132,8 +132,24 @@ def checkConn (ops : List LRU.Op) (hs : String) : Option (String × String) :=
     if !freshPuts [] ops then some ("aliased-put", "the client stored one session object under more than one key / more than once")
     else none
 
+/-- concurrent phase (harness/cmd/c11/conc.go): every stored session is tagged with its key, so a
+lookup of `k` answering a session stored under another key (or `(nil, true)`) is impossible in any
+sequential order of the calls — `C11_linearizable` excludes it for the mutex-protected model. -/
+def judgeConc (o : String) : Verdict :=
+  let ot := tokens o
+  let foreign := (kvNat ot "foreign").getD 1
+  let lenok := (kvNat ot "lenok").getD 0
+  let gets := (kv ot "gets").getD "?"
+  let hits := (kv ot "hits").getD "?"
+  let spec : Option (String × String) :=
+    if foreign != 0 then some ("conc-foreign-value", s!"{foreign} concurrent lookups returned a session stored under another key: not equivalent to any sequential order")
+    else if lenok != 1 then some ("size", "after concurrent use the cache holds more entries than its capacity or its list and map disagree")
+    else none
+  { model := s!"foreign=0 lenok=1 gets={gets} hits={hits}", spec := spec, trivial := hits == "0" }
+
 def judge (c o : String) : Option Verdict := do
   let ct := tokens c
+  if (kv ct "conc").isSome then return judgeConc o
   let ot0 := tokens o
   let stack ← kv ct "stack"
   let p ← params stack
